@@ -86,6 +86,10 @@ CLAIMS["C19"] = ("other", "call-graph closure (static, interface with field-base
   "Decides that nothing reachable from the player runner's automatic play can call, bet, raise or move all-in, that each automated action is guarded by the hand allowing it in the stated priority, that payments are exactly the posted ante/blind for the player's position, and that automation runs only when suspended or inside the action-time timer callback. It does not decide that the time bank fires no earlier than its duration.",
   "DESIGN.md §4 C19", TRUST)
 
+CLAIMS["C18"] = ("other", "guard dominance for every action the bot submits (HasAction guards and switch arms), string-provenance check of the chosen action through the chooser functions, path counting (exactly one action or hand-off per path), shape and positivity check of the bet/raise amount clamp, forwarding check Actions → adapter → engine, dominance of the silence guards",
+  "Decides that every action a bot submits is guarded by the hand allowing it or selected by the chosen action (which can only be an element of its allowed-action list), that exactly one action is submitted per path, that bet/raise amounts are clamped to stack and minimum with a provably positive random range, that payments are the posted amounts, that actions are forwarded under the bot's own id, and that the bot stays silent when not asked or stale. Legality of the amount under pokerface's raise rules and termination of bot tables are not decided.",
+  "DESIGN.md §4 C18", TRUST)
+
 REASONS = {}
 
 checks = []
